@@ -121,12 +121,63 @@ func evalPriority(c *Ctx, v ssa.Value, seen map[ssa.Value]bool) lin {
 	return lin{}
 }
 
-func priorityFunc(c *Ctx) *ssa.Function { return c.P.MustFunc("tree.(*node).priority") }
+// priorityFunc: the sort key of a node — by its role: the node method without parameters and with an integer result
+// that a two-parameter comparator of the tree package calls on both of its operands (by name when that search finds
+// nothing). nil when the tree has no such function (the key became a stored field).
+func priorityFunc(c *Ctx) *ssa.Function {
+	a := c.A
+	count := map[*ssa.Function]int{}
+	for _, f := range c.libFuncs() {
+		if !strings.HasPrefix(an.FuncKey(f), a.TreePkg.Name()+".") || len(f.Params)+len(f.FreeVars) < 2 || len(f.Params) != 2 {
+			continue
+		}
+		if !isPtrToNamed(f.Params[0].Type(), a.NodeT) || !isPtrToNamed(f.Params[1].Type(), a.NodeT) {
+			continue
+		}
+		seen := map[*ssa.Function]map[ssa.Value]bool{}
+		an.AllInstrs(f, func(in ssa.Instruction) {
+			call := an.CallOf(in)
+			if call == nil || len(call.Args) != 1 {
+				return
+			}
+			g := an.StaticCallee(call)
+			if g == nil || g.Signature.Recv() == nil || !isPtrToNamed(g.Signature.Recv().Type(), a.NodeT) || g.Signature.Results().Len() != 1 {
+				return
+			}
+			if b, ok := g.Signature.Results().At(0).Type().Underlying().(*types.Basic); !ok || b.Info()&types.IsInteger == 0 {
+				return
+			}
+			if seen[g] == nil {
+				seen[g] = map[ssa.Value]bool{}
+			}
+			seen[g][call.Args[0]] = true
+		})
+		for g, ops := range seen {
+			if ops[f.Params[0]] && ops[f.Params[1]] {
+				count[an.Origin(g)]++
+			}
+		}
+	}
+	var best *ssa.Function
+	for g, n := range count {
+		if best == nil || n > count[best] || (n == count[best] && an.FuncKey(g) < an.FuncKey(best)) {
+			best = g
+		}
+	}
+	if best != nil {
+		return best
+	}
+	return c.P.Func("tree.(*node).priority")
+}
 
 // rulePriorityMonotone is C02.R2.
 func rulePriorityMonotone(c *Ctx, rule string) {
 	f := priorityFunc(c)
 	c.R.Rule(c.R.Property+"."+rule, 1, "the sort key is strictly monotone in the kind: no weighting inside a kind can overtake the next kind")
+	if f == nil {
+		c.R.Add(rule, "pkg:tree", "sort-key/function", "-", false, "no function computes a node's sort key from its kind any more (the key is stored, and refreshed by hand wherever a node's kind or leaf-ness changes): that every node is sorted by its current kind cannot be established")
+		return
+	}
 	for _, r := range an.Returns(f) {
 		l := evalPriority(c, r.Results[0], map[ssa.Value]bool{})
 		good := l.ok && l.k > 0 && l.lo >= 0 && l.hi < l.k
@@ -139,6 +190,10 @@ func ruleSortAfterInsert(c *Ctx, rule string) {
 	a := c.A
 	c.R.Rule(c.R.Property+"."+rule, 2, "children are kept sorted by kind so that depth-first search realises the priority")
 	prio := priorityFunc(c)
+	if prio == nil {
+		c.R.Add(rule, "pkg:tree", "sort-key/function", "-", false, "no function computes a node's sort key: the comparator of the child-list sort cannot be related to the kind order")
+		return
+	}
 	// cmpOrder: +1 when fn(x, y) has the sign of priority(x) − priority(y), −1 for the reverse, 0 when undecided.
 	// Accepted bodies: the subtraction, cmp.Compare of the two keys, or a forwarding call of another comparator
 	// (a method expression's thunk, a named comparator) with the two parameters in either order.
